@@ -40,6 +40,8 @@ class Ctx:
 
     def __init__(self, pid, tier="quick", seed=0):
         self.pid = pid
+        # extension specifications (ids X..) are not among the listed properties: their output stays out of evidence/
+        self.out = OUT if not pid.upper().startswith("X") else os.path.join(OUT, "ext")
         self.tier = tier
         self.seed = seed
         self.quick = tier == "quick"
@@ -128,7 +130,7 @@ class Ctx:
             return False
         if key in self.violations:
             return True
-        d = os.path.join(OUT, "replays", self.pid)
+        d = os.path.join(self.out, "replays", self.pid)
         os.makedirs(d, exist_ok=True)
         path = os.path.join(d, hashlib.sha1(key.encode()).hexdigest()[:12] + ".json")
         with open(path, "w") as f:
@@ -176,7 +178,7 @@ class Ctx:
             "wall_s": round(time.time() - self.t0, 2),
             "violations": len(self.violations),
         }
-        d = os.path.join(OUT, "evidence")
+        d = os.path.join(self.out, "evidence")
         os.makedirs(d, exist_ok=True)
         tmp = os.path.join(d, self.pid + ".json.tmp")
         with open(tmp, "w") as f:
